@@ -9,7 +9,7 @@ from vf.rustsrc import ExtractError
 from . import common
 
 NAME = 'enc'
-PROPS = ['C01', 'C04']
+PROPS = ['C01', 'C02', 'C04']
 RLIMIT = 100
 
 TBI = ('impl Packet', 'to_bytes_internal')
@@ -52,9 +52,14 @@ fn u16_to_be_bytes(x: u16) -> (r: [u8; 2])
 #[verifier::external_body]
 fn raw_copy2_set_len(d: &mut Vec<u8>, s1: &Vec<u8>, o1: usize, n1: usize, s2: &Vec<u8>, o2: usize, n2: usize, nl: usize)
     requires
-        n1 <= s1@.len(), n2 <= s2@.len(),
-        o1 + n1 <= cap(old(d)), o2 + n2 <= cap(old(d)), nl <= cap(old(d)),
-        o1 == old(d)@.len(), o2 == o1 + n1, nl == o2 + n2,
+        n1 <= s1@.len(), // @props C04
+        n2 <= s2@.len(), // @props C04
+        o1 + n1 <= cap(old(d)), // @props C04
+        o2 + n2 <= cap(old(d)), // @props C04
+        nl <= cap(old(d)), // @props C04
+        o1 == old(d)@.len(), // @props C04
+        o2 == o1 + n1, // @props C04
+        nl == o2 + n2, // @props C04
     ensures
         final(d)@ == old(d)@ + s1@.subrange(0, n1 as int) + s2@.subrange(0, n2 as int),
         cap(final(d)) == cap(old(d)),
@@ -63,8 +68,11 @@ fn raw_copy2_set_len(d: &mut Vec<u8>, s1: &Vec<u8>, o1: usize, n1: usize, s2: &V
 #[verifier::external_body]
 fn raw_copy1_set_len(d: &mut Vec<u8>, s1: &Vec<u8>, o1: usize, n1: usize, nl: usize)
     requires
-        n1 <= s1@.len(), o1 + n1 <= cap(old(d)), nl <= cap(old(d)),
-        o1 == old(d)@.len(), nl == o1 + n1,
+        n1 <= s1@.len(), // @props C04
+        o1 + n1 <= cap(old(d)), // @props C04
+        nl <= cap(old(d)), // @props C04
+        o1 == old(d)@.len(), // @props C04
+        nl == o1 + n1, // @props C04
     ensures
         final(d)@ == old(d)@ + s1@.subrange(0, n1 as int),
         cap(final(d)) == cap(old(d)),
@@ -93,24 +101,6 @@ proof fn lemma_hdr_byte(delta: u16, len: usize, byte: u8)
     }
 }
 
-// ---- the message a Packet denotes ----
-pub open spec fn pkt_opts(p: Packet) -> Seq<Opt> { flat_map(opts_view(p.options), 65536) }
-pub open spec fn pkt_wire(p: Packet) -> Seq<u8> {
-    wire_msg(p.header.ver_type_tkl, u8_of_class(p.header.code), p.header.message_id, p.token@, pkt_opts(p), p.payload@)
-}
-// codes for which "not the Empty class" and "code byte != 0" coincide (everything the decoder
-// produces and every named code; excludes hand-built Reserved(0))
-pub open spec fn code_canonical(c: MessageClass) -> bool { class_of_u8(u8_of_class(c)) == c }
-pub open spec fn enc_pre(p: Packet) -> bool {
-    p.token@.len() <= 0x1000_0000 && p.payload@.len() <= 0x1000_0000 && code_canonical(p.header.code)
-}
-// postcondition shared by the four entry points (C04: exact limit; C01: exact wire image)
-pub open spec fn enc_post(p: Packet, limit: Option<usize>, r: Result<Vec<u8>, MessageError>) -> bool {
-    &&& map_encodable(opts_view(p.options)) ==> (r is Ok <==> (limit is None || pkt_wire(p).len() <= limit->0))
-    &&& map_encodable(opts_view(p.options)) && r is Err ==> r->Err_0 == MessageError::InvalidPacketLength
-    &&& !map_encodable(opts_view(p.options)) ==> r is Err
-    &&& r is Ok ==> r->Ok_0@ == pkt_wire(p)
-}
 '''
 
 
@@ -118,6 +108,7 @@ def build(repo, udp=False):
     u = Unit(NAME, repo)
     u.prelude('std_stubs.rs', 'views.rs', 'wire.rs', 'encwire.rs')
     u.raw(common.registry.class_spec(), 'spec/registry.py:class_spec')
+    u.prelude('pktview.rs')
     u.raw(common.HEADERRAW_TRYFROM_SPEC + STUBS, 'units/enc.py')
     common.header_items(u, serialize=True)
     common.packet_struct(u)
@@ -170,7 +161,16 @@ def build(repo, udp=False):
                '        ensures r.ver_type_tkl == self.ver_type_tkl, r.code == u8_of_class(self.code), r.message_id == self.message_id', props=PROPS)
     for fn, lim in [('to_bytes', 'Some(Packet::MAX_SIZE)'), ('to_bytes_with_limit', 'Some(limit)'), ('to_bytes_unlimited', 'None')]:
         u.contract(('impl Packet', fn), '        requires enc_pre(*self)\n        ensures enc_post(*self, %s, r)' % lim, props=PROPS)
-    u.contract(TBI, '        requires enc_pre(*self)\n        ensures enc_post(*self, limit, r)', props=PROPS)
+    u.contract(TBI, '''        requires enc_pre(*self)
+        ensures
+            // C04: succeeds exactly when the exact wire length is within the limit
+            map_encodable(opts_view(self.options)) ==> (r is Ok <==> (limit is None || pkt_wire(*self).len() <= limit->0)), // @props C04
+            map_encodable(opts_view(self.options)) && r is Err ==> r->Err_0 == MessageError::InvalidPacketLength, // @props C04
+            // C04: a value too long for the 16-bit extended length field is refused
+            !map_encodable(opts_view(self.options)) ==> r is Err, // @props C04
+            // C01/C02/C04: the output is exactly the RFC 7252 wire image (hence has exactly that length)
+            r is Ok ==> r->Ok_0@ == pkt_wire(*self), // @props C01 C02 C04
+            enc_post(*self, limit, r), // @props C04''', props=PROPS)
 
     # ---- proof of to_bytes_internal ----
     u.body_start(TBI, '''        broadcast use vstd::std_specs::btree::group_btree_axioms;
@@ -293,7 +293,7 @@ def build(repo, udp=False):
             let tail = if u8_of_class(self.header.code) != 0 && self.payload@.len() > 0 { seq![0xFFu8] + self.payload@ } else { Seq::<u8>::empty() };
             assert(pkt_wire(*self) == h + self.token@ + wire_opts_r(pkt_opts(*self)) + tail);
             assert(options_bytes@.len() == wire_opts_r(pkt_opts(*self)).len());
-            assert(buf_length == pkt_wire(*self).len());
+            assert(buf_length == pkt_wire(*self).len()); // @props C04
         }''')
     u.before(TBI, r'Ok\(buf\)', '''                proof {
                     assert(self.token@.subrange(0, self.token@.len() as int) =~= self.token@);
